@@ -62,6 +62,10 @@ impl<'a, T: Send> Future for SendFuture<'a, T> {
   fn poll(mut self: Pin<&mut Self>, cx: &mut Context<'_>) -> Poll<Self::Output> {
     let this = unsafe { self.as_mut().get_unchecked_mut() };
     let state_ptr = &this.state as *const AtomicU8;
+    // A handle that was itself closed rejects the operation (like the sync forms).
+    if !this.is_registered && this.sender.closed.load(Ordering::Relaxed) {
+      return Poll::Ready(Err(SendError::Closed));
+    }
 
     'poll_loop: loop {
       if this.is_registered {
@@ -210,6 +214,13 @@ impl<'a, T: Send> Future for SendBatchFuture<'a, T> {
   fn poll(mut self: Pin<&mut Self>, cx: &mut Context<'_>) -> Poll<Self::Output> {
     let this = unsafe { self.as_mut().get_unchecked_mut() };
     let state_ptr = &this.state as *const AtomicU8;
+    // A handle that was itself closed rejects the operation (like the sync forms).
+    if !this.is_registered && this.sender.closed.load(Ordering::Relaxed) {
+      return Poll::Ready(Err(SendBatchError {
+        sent: this.sent,
+        unsent: this.pending.take().into_iter().chain(this.iter.by_ref()).collect(),
+      }));
+    }
 
     'poll_loop: loop {
       if this.is_registered {
@@ -406,6 +417,13 @@ impl<'a, T: Send> Future for SendBatchMutFuture<'a, T> {
   fn poll(mut self: Pin<&mut Self>, cx: &mut Context<'_>) -> Poll<Self::Output> {
     let this = unsafe { self.as_mut().get_unchecked_mut() };
     let state_ptr = &this.state as *const AtomicU8;
+    // A handle that was itself closed rejects the operation (like the sync forms).
+    if !this.is_registered && this.sender.closed.load(Ordering::Relaxed) {
+      if let Some(item) = this.pending.take() {
+        this.items.insert(0, item);
+      }
+      return Poll::Ready(Err(SendError::Closed));
+    }
 
     'poll_loop: loop {
       if this.is_registered {
@@ -558,6 +576,10 @@ impl<'a, T: Send> Future for RecvBatchFuture<'a, T> {
   fn poll(mut self: Pin<&mut Self>, cx: &mut Context<'_>) -> Poll<Self::Output> {
     let this = unsafe { self.as_mut().get_unchecked_mut() };
     let state_ptr = &this.state as *const AtomicU8;
+    // A handle that was itself closed rejects the operation (like the sync forms).
+    if !this.is_registered && this.receiver.closed.load(Ordering::Relaxed) {
+      return Poll::Ready(Err(RecvError::Disconnected));
+    }
     let mut out = Vec::new();
 
     if this.is_registered {
@@ -647,6 +669,10 @@ impl<'a, T: Send> Future for RecvBatchMutFuture<'a, T> {
   fn poll(mut self: Pin<&mut Self>, cx: &mut Context<'_>) -> Poll<Self::Output> {
     let this = unsafe { self.as_mut().get_unchecked_mut() };
     let state_ptr = &this.state as *const AtomicU8;
+    // A handle that was itself closed rejects the operation (like the sync forms).
+    if !this.is_registered && this.receiver.closed.load(Ordering::Relaxed) {
+      return Poll::Ready(Err(RecvError::Disconnected));
+    }
     let max = this.max;
 
     if this.is_registered {
@@ -729,6 +755,10 @@ impl<'a, T: Send> Future for RecvFuture<'a, T> {
     // PhantomPinned makes RecvFuture !Unpin, so get_unchecked_mut is required.
     let this = unsafe { self.as_mut().get_unchecked_mut() };
     let state_ptr = &this.state as *const AtomicU8;
+    // A handle that was itself closed rejects the operation (like the sync forms).
+    if !this.is_registered && this.receiver.closed.load(Ordering::Relaxed) {
+      return Poll::Ready(Err(RecvError::Disconnected));
+    }
 
     if this.is_registered {
       let st = this.state.load(Ordering::SeqCst);
